@@ -60,7 +60,9 @@ def s_converged(ctx, shape, maxiter, delete=()):
 
         def sym_init(phase=""):
             v0, i0, state = orig_init(phase)
-            v, i = [0.0] * len(v0), [0.0] * len(i0)
+            from ..shims import SymArr
+
+            v, i = SymArr([0.0] * len(v0)), SymArr([0.0] * len(i0))
             for idx, nm in names.items():
                 v[idx] = ctx.iter_real("v0[%s]" % nm)
                 i[idx] = ctx.iter_real("i0[%s]" % nm)
